@@ -72,7 +72,9 @@ def oracle_c20(r, an, info, rng):
                 got = [r.get_measurement(float(x), nm) for x in q]
                 arr = r.get_measurement(np.array(q), nm)
                 for k, lab in enumerate(["at grid frequency", "between grid frequencies", "below range", "above range"]):
-                    if not close(got[k], exp[k], rtol=1e-9, atol=1e-300) or not close(arr[k], exp[k], rtol=1e-9, atol=1e-300):
+                    # phases of (anti)parallel channels are rounding noise around 0 or +-180: compare those on the scale of the tabulated values
+                    at = 1e-300 if nm not in ("cf_rad", "cf_deg", "cf_rad_unwrapped") else 1e-11 * (1.0 + float(np.max(np.abs(tab[np.isfinite(tab)]), initial=0.0)))
+                    if not close(got[k], exp[k], rtol=1e-9, atol=at) or not close(arr[k], exp[k], rtol=1e-9, atol=at):
                         out.append(("interp:" + nm, "get_measurement(%r, %r) %s: got %r / %r, expected %r" % (q[k], nm, lab, got[k], arr[k], exp[k])))
                         break
             elif len(f) == 1:      # (a user plan listing bins out of order is outside np.interp's contract: not interpolated here)
